@@ -44,6 +44,7 @@ fn find_fn(
     ast: &syn::File,
     impl_ty: Option<&str>,
     trait_name: Option<&str>,
+    trait_arg: Option<&str>,
     name: &str,
 ) -> Option<(syn::ItemFn, Option<syn::ItemImpl>)> {
     fn strip_generics(s: &str) -> String {
@@ -57,6 +58,7 @@ fn find_fn(
         items: &[syn::Item],
         impl_ty: Option<&str>,
         trait_name: Option<&str>,
+        trait_arg: Option<&str>,
         name: &str,
     ) -> Option<(syn::ItemFn, Option<syn::ItemImpl>)> {
         for it in items {
@@ -75,6 +77,12 @@ fn find_fn(
                         .map(|(_, p, _)| p.segments.last().unwrap().ident.to_string());
                     if trait_name.map(|t| t.to_string()) != tr {
                         continue;
+                    }
+                    // several impls of one generic trait (`From<A>`, `From<B>`): `trait_arg` picks the one whose trait path mentions it
+                    if let (Some(arg), Some((_, p, _))) = (trait_arg, im.trait_.as_ref()) {
+                        if !p.to_token_stream().to_string().replace(' ', "").contains(arg) {
+                            continue;
+                        }
                     }
                     for ii in &im.items {
                         if let syn::ImplItem::Fn(m) = ii {
@@ -97,7 +105,7 @@ fn find_fn(
                         // do not descend into #[cfg(test)] modules
                         let is_test = m.attrs.iter().any(|a| a.to_token_stream().to_string().contains("test"));
                         if !is_test {
-                            if let Some(r) = walk(items, impl_ty, trait_name, name) {
+                            if let Some(r) = walk(items, impl_ty, trait_name, trait_arg, name) {
                                 return Some(r);
                             }
                         }
@@ -108,7 +116,7 @@ fn find_fn(
         }
         None
     }
-    walk(&ast.items, impl_ty, trait_name, name)
+    walk(&ast.items, impl_ty, trait_name, trait_arg, name)
 }
 
 fn find_item<'a>(items: &'a [syn::Item], name: &str) -> Option<&'a syn::Item> {
@@ -166,8 +174,9 @@ fn handle_fn(repo: &str, req: &Value, global: &Value) -> Result<Value, String> {
     let name = req["name"].as_str().ok_or("fn: missing name")?;
     let impl_ty = req["impl"].as_str();
     let trait_name = req["trait"].as_str();
+    let trait_arg = req["trait_arg"].as_str();
     let (_src, ast) = read_file(repo, file)?;
-    let (mut f, mut shell) = find_fn(&ast, impl_ty, trait_name, name).ok_or_else(|| {
+    let (mut f, mut shell) = find_fn(&ast, impl_ty, trait_name, trait_arg, name).ok_or_else(|| {
         format!(
             "lost anchor: function {}{} not found in {}",
             impl_ty.map(|s| format!("{}::", s)).unwrap_or_default(),
@@ -183,7 +192,7 @@ fn handle_fn(repo: &str, req: &Value, global: &Value) -> Result<Value, String> {
     if let Some(names) = req["inline_iters"].as_array() {
         for n in names {
             let n = n.as_str().ok_or("bad recipe: inline_iters")?;
-            let (hf, _) = find_fn(&ast, None, None, n).ok_or_else(|| format!("lost anchor: helper {} not found in {}", n, file))?;
+            let (hf, _) = find_fn(&ast, None, None, None, n).ok_or_else(|| format!("lost anchor: helper {} not found in {}", n, file))?;
             cfg.inline_fns.insert(n.to_string(), hf);
         }
     }
@@ -308,7 +317,7 @@ fn handle_decl(repo: &str, req: &Value) -> Result<Value, String> {
             _ => Err(format!("lost anchor: {} is not a struct/enum", name)),
         };
     }
-    if let Some((f, _)) = find_fn(&ast, None, None, name) {
+    if let Some((f, _)) = find_fn(&ast, None, None, None, name) {
         return Ok(json!({"ok": true, "kind": "decl", "what": "fn", "name": name, "sig": f.sig.to_token_stream().to_string().replace(' ', ""),
             "vis": f.vis.to_token_stream().to_string()}));
     }
